@@ -33,12 +33,17 @@ package schedule
 //@     decreases core.pieces / fragment - i
 
 //@ # ---- the host a planning round works on ----
+//@ pred distinctIDs(cores []*cpuCore) = forall a, b :: 0 <= a && a < b && b < len(cores) ==> cores[a].ID != cores[b].ID
+//@ # every core of the host has its own ID
+//@ pred hostIDs(h *host) = distinctIDs(h.fullCores) && distinctIDs(h.fragmentCores)
+//@        && forall a, b :: 0 <= a && a < len(h.fullCores) && 0 <= b && b < len(h.fragmentCores) ==> h.fullCores[a].ID != h.fragmentCores[b].ID
+
 //@ pred okHost(h *host) = h != nil && allocated(h) && h.shareBase >= 1 && h.shareBase <= 1048576 && (h.maxFragmentCores == -1 || h.maxFragmentCores >= 1)
 //@        && okCores(h.fullCores) && okCores(h.fragmentCores) && (arr(h.fullCores) == 0 || arr(h.fullCores) != arr(h.fragmentCores))
 
 //@ func newHost
-//@   requires (forall k string :: cpuMap[k] <= 2305843009213693952) && shareBase >= 1 && shareBase <= 1048576 && (maxFragmentCores == -1 || maxFragmentCores >= 1)
-//@   ensures[C06.newhost,C04,C05] okHost(result) && fresh(result) && result.shareBase == shareBase && result.maxFragmentCores == maxFragmentCores && !result.affinity
+//@   requires (forall k string :: cpuMap[k] <= 1099511627776) && shareBase >= 1 && shareBase <= 1048576 && (maxFragmentCores == -1 || maxFragmentCores >= 1)
+//@   ensures[C06.newhost,C04,C05] okHost(result) && hostIDs(result) && fresh(result) && result.shareBase == shareBase && result.maxFragmentCores == maxFragmentCores && !result.affinity
 //@        && (arr(result.fullCores) == 0 || fresh(result.fullCores)) && (arr(result.fragmentCores) == 0 || fresh(result.fragmentCores))
 //@   # classification: full cores hold a positive multiple of the share base, fragment cores any other positive amount
 //@   ensures[C04.classify,C05,C06] (forall k :: 0 <= k && k < len(result.fullCores) ==> result.fullCores[k].pieces >= shareBase && result.fullCores[k].pieces % shareBase == 0
@@ -49,6 +54,7 @@ package schedule
 //@     modifies h
 //@     invariant h != nil && fresh(h) && allocated(h) && h.shareBase == shareBase && h.maxFragmentCores == maxFragmentCores && !h.affinity
 //@     invariant okCores(h.fullCores) && okCores(h.fragmentCores) && fresh(h.fullCores) && fresh(h.fragmentCores) && arr(h.fullCores) != arr(h.fragmentCores)
+//@     invariant hostIDs(h) && (forall k :: 0 <= k && k < len(h.fullCores) ==> seen(h.fullCores[k].ID)) && (forall k :: 0 <= k && k < len(h.fragmentCores) ==> seen(h.fragmentCores[k].ID))
 //@     invariant forall k :: 0 <= k && k < len(h.fullCores) ==> fresh(h.fullCores[k]) && h.fullCores[k].pieces >= shareBase && h.fullCores[k].pieces % shareBase == 0
 //@                                        && h.fullCores[k].ID in cpuMap && cpuMap[h.fullCores[k].ID] == h.fullCores[k].pieces
 //@     invariant forall k :: 0 <= k && k < len(h.fragmentCores) ==> fresh(h.fragmentCores[k]) && h.fragmentCores[k].ID in cpuMap && cpuMap[h.fragmentCores[k].ID] == h.fragmentCores[k].pieces
@@ -56,12 +62,11 @@ package schedule
 
 //@ func reorderByAffinity
 //@   trusted
-//@   requires okHost(oldH) && okHost(newH)
+//@   requires okHost(oldH) && okHost(newH) && hostIDs(newH)
 //@   modifies newH, newH.fullCores[_], newH.fragmentCores[_]
-//@   ensures[C06.reorder,C04,C05] okHost(newH) && newH.shareBase == old(newH.shareBase) && newH.maxFragmentCores == old(newH.maxFragmentCores)
+//@   ensures[C06.reorder,C04,C05] okHost(newH) && hostIDs(newH) && newH.shareBase == old(newH.shareBase) && newH.maxFragmentCores == old(newH.maxFragmentCores)
 
 //@ # ---- whole-core plans (no affinity): `full` distinct cores at a full share each ----
-//@ pred distinctIDs(cores []*cpuCore) = forall a, b :: 0 <= a && a < b && b < len(cores) ==> cores[a].ID != cores[b].ID
 
 //@ func (*host) getFullCPUPlans
 //@   requires h != nil && h.shareBase >= 1 && h.shareBase <= 1048576 && full >= 1 && okCores(cores) && distinctIDs(cores) && !h.affinity
@@ -114,10 +119,6 @@ package schedule
 //@     invariant forall k :: 0 <= k && k < len(result) ==> result[k] != nil && allocated(result[k]) && card(result[k]) == full && msum(result[k]) == full * h.shareBase
 //@                  && forall id string :: id in result[k] ==> result[k][id] == h.shareBase
 
-//@ # every core of the host has its own ID
-//@ pred hostIDs(h *host) = distinctIDs(h.fullCores) && distinctIDs(h.fragmentCores)
-//@        && forall a, b :: 0 <= a && a < len(h.fullCores) && 0 <= b && b < len(h.fragmentCores) ==> h.fullCores[a].ID != h.fragmentCores[b].ID
-
 //@ # getCPUPlans: only the piece arithmetic and what is handed to the planners is claimed here (partial contract);
 //@ # the core-conversion loop and the pairing of full and fragment plans need finite sums over the cores.
 //@ func (*host) getCPUPlans
@@ -137,6 +138,7 @@ package schedule
 //@ # ---- memory admission of one planning round: the plans kept fit into the available memory ----
 //@ func doGetCPUPlans
 //@   requires shareBase >= 1 && shareBase <= 1048576 && (maxFragmentCores == -1 || maxFragmentCores >= 1) && cpuRequest > 0.0 && cpuRequest <= 1048576.0
+//@   requires (forall k string :: originCPUMap[k] <= 1099511627776) && (forall k string :: availableCPUMap[k] <= 1099511627776)
 //@   requires memoryRequest >= 0 && memoryRequest <= 2305843009213693952 && -2305843009213693952 <= availableMemory && availableMemory <= 2305843009213693952
 //@   ensures[C04.mem-admission,C06] memoryRequest > 0 ==> len(result) * memoryRequest <= max(availableMemory, 0)
 //@   ensures[C04.mem-wf,C06] (arr(result) == 0 || allocated(result))
